@@ -272,6 +272,30 @@ func (b *Body) refT(v *Val) *T {
 		ft.abstraction("interior pointer materialised as opaque reference")
 		v.T = A(fn, args...)
 		ft.fact(Not(Eq(v.T, L("nil"))))
+		// Link the two views of the same memory at this instant: what the interior
+		// reference designates in its own heap region is the field of the enclosing
+		// object. Only when the function (transitively) writes neither region, so
+		// that the two views cannot drift apart inside this activation.
+		if b.curState != nil && v.Type != nil {
+			if leafRegion, _, _, isSeq := ft.ptrRegion(v.Type); leafRegion != "" && !isSeq && strings.HasPrefix(leafRegion, "H.") {
+				fieldsOnly := true
+				for _, s := range v.Addr.Path {
+					if s.Field == "" {
+						fieldsOnly = false
+					}
+				}
+				written := false
+				for _, m := range ft.e.modSet(b.fn.String(), nil) {
+					if m == leafRegion || m == v.Addr.Region {
+						written = true
+					}
+				}
+				if fieldsOnly && !written {
+					ft.fact(Eq(Sel(ft.region(b.curState, leafRegion), v.T), ft.load(b.curState, v.Addr)))
+					ft.abstraction("interior pointer " + fn + ": linked to the enclosing object's field at the point of materialisation (function writes neither region)")
+				}
+			}
+		}
 		return v.T
 	}
 	v.T = ft.fresh("undef", ft.sortOf(v.Type))
